@@ -1,5 +1,10 @@
 use rowan::TextSize;
 
+/// Length of `text` in UTF-16 code units, the unit of LSP positions.
+fn utf16_len(text: &str) -> usize {
+    text.chars().map(char::len_utf16).sum()
+}
+
 #[derive(Debug, Clone)]
 pub struct LineIndex {
     line_offsets: Vec<u32>,
@@ -69,25 +74,25 @@ impl LineIndex {
         self.line_offsets.len()
     }
 
-    // get col base 0
+    // get col base 0, counted in UTF-16 code units like LSP positions
     pub fn get_col(&self, offset: TextSize, source_text: &str) -> Option<usize> {
         let (line, start_offset) = self.get_line_with_start_offset(offset)?;
         if self.is_line_only_ascii_index(line) {
             Some(usize::from(offset - start_offset))
         } else {
             let text = &source_text[usize::from(start_offset)..usize::from(offset)];
-            Some(text.chars().count())
+            Some(utf16_len(text))
         }
     }
 
-    // get line and col base 0
+    // get line and col base 0, col counted in UTF-16 code units like LSP positions
     pub fn get_line_col(&self, offset: TextSize, source_text: &str) -> Option<(usize, usize)> {
         let (line, start_offset) = self.get_line_with_start_offset(offset)?;
         if self.is_line_only_ascii_index(line) {
             Some((line, usize::from(offset - start_offset)))
         } else {
             let text = &source_text[usize::from(start_offset)..usize::from(offset)];
-            Some((line, text.chars().count()))
+            Some((line, utf16_len(text)))
         }
     }
 
@@ -127,10 +132,17 @@ impl LineIndex {
             let col = col.min(line_text.len());
             Some(TextSize::from(col as u32))
         } else {
-            let offset = line_text
-                .char_indices()
-                .nth(col)
-                .map_or(line_text.len(), |(offset, _)| offset);
+            // `col` counts UTF-16 code units; a column inside a surrogate pair
+            // resolves to the start of that character.
+            let mut units = 0;
+            let mut offset = line_text.len();
+            for (char_offset, c) in line_text.char_indices() {
+                if units + c.len_utf16() > col {
+                    offset = char_offset;
+                    break;
+                }
+                units += c.len_utf16();
+            }
             Some(TextSize::from(offset as u32))
         }
     }
